@@ -74,8 +74,9 @@ Proof.
   assert (Eal : call s' T = call s T) by (unfold call; apply (sa_all _ _ SA)).
   constructor; intros; rewrite ?El, ?Em, ?Ek, ?Es, ?Ec, ?Ep, ?Epw, ?Eal in *; repeat rewrite Ef in * by reflexivity.
   - eapply (a_send _ _ A); eauto.
-  - apply Hd in H. destruct (a_entry _ _ A _ _ _ _ H) as [B1 [B2 [B3 B4]]]. repeat split; auto;
+  - apply Hd in H. destruct (a_entry _ _ A _ _ _ _ H) as [B1 [B2 B4]]. repeat split; auto;
     try (intros k Hk; specialize (B4 k Hk); apply Eo in B4; rewrite El in B4; auto).
+  - apply (a_1pcts _ _ A).
   - eapply (a_lam _ _ A); eauto.
   - apply (a_cnt _ _ A).
   - destruct (K k) as [E | [[_ E] | [[m [c' [_ [E [S1 S2]]]]] | [m [_ [E _]]]]]].
